@@ -10,12 +10,12 @@ VERIF = os.path.dirname(os.path.dirname(os.path.abspath(__file__)))
 RULES = collections.OrderedDict()   # rule id -> (fn, props, doc, floor)
 
 
-def rule(rid, props, floor=1, configs=None):
+def rule(rid, props, floor=1, configs=None, cross=False):
     """register a rule.  floor = minimum number of instances it must evaluate (per configuration in
     which it applies) — a rule matching fewer is analysis-broken, never a vacuous pass.
     configs: restrict to configurations (e.g. only c++20 ones) or None for all."""
     def deco(fn):
-        RULES[rid] = dict(fn=fn, props=props, doc=(fn.__doc__ or '').strip(), floor=floor, configs=configs, id=rid)
+        RULES[rid] = dict(fn=fn, props=props, doc=(fn.__doc__ or '').strip(), floor=floor, configs=configs, id=rid, cross=cross)
         return fn
     return deco
 
